@@ -7,8 +7,13 @@ M=${MUT:-/tmp/mut}
 T=$M.tmp
 [ -d $M ] || git -C /repo worktree add -q --detach $M HEAD
 git -C $M checkout -q --detach $(git -C /repo rev-parse HEAD) 2>/dev/null
-git -C $M checkout -q -- . ; git -C $M clean -fdq
-if ! git -C $M apply --whitespace=nowarn $sd/patch$n.diff 2>$T.apply.err; then echo "PATCH DOES NOT APPLY: $(head -2 $T.apply.err)"; exit 2; fi
+git -C $M reset -q --hard HEAD ; git -C $M clean -fdq
+if ! git -C $M apply --whitespace=nowarn $sd/patch$n.diff 2>$T.apply.err; then
+  # written against an earlier HEAD: three-way, then keep the rebased patch beside the original
+  if git -C $M apply -3 --whitespace=nowarn $sd/patch$n.diff 2>$T.apply.err && ! git -C $M diff --name-only --diff-filter=U | grep -q .; then
+    git -C $M reset -q; git -C $M diff -- stix2 > $sd/patch$n.rebased.diff; echo "(patch applied three-way; rebased copy written)"
+  else echo "PATCH DOES NOT APPLY: $(head -2 $T.apply.err)"; git -C $M reset -q --hard HEAD; exit 2; fi
+fi
 echo "suite with change: $(cd $M && /venv/bin/python -m pytest -q -p no:cacheprovider --timeout=900 --continue-on-collection-errors 2>&1 | tail -1)"
 mkdir -p $M/_seed; cp $sd/demo$n.py $M/_seed/
 (cd $M && timeout 300 /venv/bin/python _seed/demo$n.py >$T.demo.out 2>&1); echo "demo with change: rc=$? $(tail -1 $T.demo.out | cut -c1-160)"
@@ -16,6 +21,6 @@ for id in $ids; do
   out=$(STIXMON_REPO=$M ./vcheck $id --tier $tier 2>&1); rc=$?
   echo "  [$id $tier rc=$rc] $(echo "$out" | grep -E '^VIOLATION|^INCONCLUSIVE' | head -3 | cut -c1-240)"
 done
-git -C $M checkout -q -- stix2
+git -C $M reset -q --hard HEAD
 (cd $M && timeout 300 /venv/bin/python _seed/demo$n.py >$T.demo.out 2>&1); echo "demo without change: rc=$?"
 rm -rf $M/_seed
